@@ -11,6 +11,7 @@ import fractions
 import random
 from numbers import Integral, Real
 
+import mido
 from mido import Message
 
 from .. import gen
@@ -38,7 +39,8 @@ DECIDING = ['state valid after accept', 'reject leaves original unchanged',
             'history state == model']
 TIMEOUT = {'quick': 300, 'thorough': 1800}
 OKEXC = (ValueError, TypeError, AttributeError)
-ENTRY = ('ctor', 'copy', 'setattr', 'from_dict', 'from_str')
+ENTRY = ('ctor', 'copy', 'setattr', 'from_dict', 'from_str', 'parse_string', 'parse_string_stream')
+TEXT_ENTRY = ('from_str', 'parse_string', 'parse_string_stream')
 
 
 def nshards(tier):
@@ -163,6 +165,13 @@ def judge_call(ctx, t, name, v, expect, entry, base_attrs=None):
             result = Message.from_dict({'type': t, **base_attrs, name: v})
         elif entry == 'from_str':
             result = Message.from_str(f'{t} {name}={textual(v)}')
+        elif entry == 'parse_string':
+            result = mido.parse_string(f'{t} {name}={textual(v)}')
+        elif entry == 'parse_string_stream':
+            import io
+            (result, err), = list(mido.parse_string_stream(io.StringIO(f'{t} {name}={textual(v)}\n')))
+            if result is None:
+                raise ValueError(err)
         elif entry == 'iadd':
             base.data += v
             result = base
@@ -205,7 +214,7 @@ def judge_call(ctx, t, name, v, expect, entry, base_attrs=None):
         if name == 'data':
             want = tuple(base_attrs.get('data', ())) + tuple(v) if entry == 'iadd' else None
             ok = want is None or tuple(got) == want
-        elif entry == 'from_str':
+        elif entry in TEXT_ENTRY:
             ok = got == v or (got != got and v != v)
         else:
             ok = (got == v or (got != got and v != v)) and vars(result)['type'] == t
@@ -226,7 +235,7 @@ def grid_for_type(ctx, t):
             # generators can be consumed only once: build them per call
             pool = [(v, True) for v in good] + [(v, False) for v in bad] + [(v, None) for v in unj]
             for v, expect in pool:
-                if entry == 'from_str':
+                if entry in TEXT_ENTRY:
                     tv = textual(v)
                     if tv is None:
                         continue
@@ -262,11 +271,37 @@ def grid_for_type(ctx, t):
         [a for a in list(midi1.DOMAIN) + ['data'] if a not in midi1.ATTRS[t]]
     for name in foreign:
         for entry in ENTRY:
-            if entry == 'from_str' and not name:
+            if entry in TEXT_ENTRY and not name:
                 continue
             judge_call(ctx, t, name, 1 if name != 'data' else (1,), False, entry)
             ctx.nontrivial((t, name, 'foreign', entry))
             n += 1
+    # names of parameters of the constructor and of internal helpers are not attributes either: in a
+    # text or a dict they must not switch anything off
+    ints = [a for a in midi1.ATTRS[t] if a != 'data']
+    for pname in ('skip_checks', 'args', 'kwargs', 'self', 'cl', 'cls', 'msgdict', 'overrides', 'check'):
+        for truthy in ('1', 'True'):
+            for name in ints[:2] or ['time']:
+                bad = 'x' if name == 'time' else str(midi1.DOMAIN[name][1] + 872)
+                text = f'{t} {pname}={truthy} {name}={bad}'
+                for entry in TEXT_ENTRY:     # (a dict IS the constructor's keyword arguments: skip_checks there is 'with skip_checks')
+                    case_p = {'kind': 'param-name', 'type': t, 'text': text, 'entry': entry}
+                    try:
+                        if entry == 'from_str':
+                            r = Message.from_str(text)
+                        elif entry == 'parse_string':
+                            r = mido.parse_string(text)
+                        else:
+                            import io
+                            (r, err), = list(mido.parse_string_stream(io.StringIO(text + '\n')))
+                            if r is None:
+                                raise ValueError(err)
+                        ctx.check('out-of-domain rejected', False, f'{entry}:{pname}-switches-checks-off', case_p, rv(r))
+                    except OKEXC:
+                        ctx.count('out-of-domain rejected')
+                    except Exception as exc:
+                        ctx.check('exception class', False, f'{entry}:{pname}:{type(exc).__name__}', case_p, str(exc))
+                    n += 1
     # a positional type together with a type= keyword (the same or another one) is a contradiction in terms
     for other_t in ('note_on', 'sysex', 'clock', 'polytouch', t, 0x90, 0xF0):
         case_t = {'kind': 'type-attr', 'type': t, 'keyword_type': repr(other_t)}
@@ -461,6 +496,8 @@ def run(ctx):
             ctx.nontrivial(('hist', seed))
             n += 1
     ctx.extra('histories', nh * len(midi1.TYPES))
+    from .. import coldstart
+    n += coldstart.phase(ctx, cold_jobs(), 'state valid after accept', offset=2)
     ctx.count('cases', n)
     ctx.put_sample({'kind': 'grid', 'type': 'note_on', 'attr': 'note', 'value': '128',
                     'entry': 'setattr', 'expect': False})
@@ -469,8 +506,33 @@ def run(ctx):
     ctx.put_sample({'kind': 'history', 'type': 'pitchwheel', 'seed': f'{ctx.seed}:{ctx.shard}:0:pitchwheel'})
 
 
+def cold_jobs():
+    """Cold start: the first constructions of a fresh interpreter, made by two threads."""
+    from ..coldstart import msg_want
+
+    def full(t, a):
+        d = {n: (midi1.DEFAULTS.get(n, 0) if n != 'data' else []) for n in midi1.ATTRS[t]}
+        d.update(a)
+        return d
+
+    def mk(fn, t, a):
+        return {'fn': fn, 'type': t, 'attrs': a, 'want': msg_want(t, full(t, a))}
+    pt = ('polytouch', {'note': 5})
+    others = [mk('ctor', 'polytouch', {'value': 9, 'channel': 3}), mk('from_dict', 'polytouch', {}), mk('copy', 'polytouch', {'note': 1}),
+              mk('ctor', 'note_on', {}), mk('ctor', 'sysex', {'data': [1, 2]}), mk('from_dict', 'pitchwheel', {'pitch': -1}),
+              mk('ctor', 'clock', {}), mk('copy', 'note_on', {'velocity': 0})]
+    mods = ['mido.messages.messages', 'mido.messages.checks', 'mido.messages.specs']
+    return [{'modules': mods, 'jobs': [first, others], 'k': 1}
+            for first in ([mk('ctor', *pt)], [mk('from_dict', 'note_on', {'note': 1})], [mk('copy', 'polytouch', {'value': 2})],
+                          [mk('ctor', 'sysex', {'data': [3]}), mk('ctor', 'pitchwheel', {})])]
+
+
 def replay(ctx, case):
     k = case['kind']
+    if k == 'cold':
+        from .. import coldstart
+        coldstart.replay(ctx, case, 'state valid after accept')
+        return
     if k == 'history':
         history(ctx, case['type'], case['seed'], case['steps'])
     elif k in ('grid', 'delattr', 'type-attr'):
